@@ -595,15 +595,17 @@ struct Si {
     config: StarkConfig,
     proof: StarkProofWithPublicInputs<F, PC, D>,
     with_pi: bool,
+    /// variable-degree recursion mode: the transcript is padded to the shape of this verifier circuit
+    vparams: Option<plonky2::fri::FriParams>,
 }
 
 fn stark_challenges(si: &Si) -> Result<Chal, String> {
     let r = guarded(|| {
         let mut ch = Challenger::<F, <PC as GenericConfig<D>>::Hasher>::new();
         if si.with_pi {
-            si.proof.get_challenges(&FibPi::<F, D> { _p: PhantomData }, &mut ch, None, None, false, &si.config, None)
+            si.proof.get_challenges(&FibPi::<F, D> { _p: PhantomData }, &mut ch, None, None, false, &si.config, si.vparams.clone())
         } else {
-            si.proof.get_challenges(&FibNoPi::<F, D> { _p: PhantomData }, &mut ch, None, None, false, &si.config, None)
+            si.proof.get_challenges(&FibNoPi::<F, D> { _p: PhantomData }, &mut ch, None, None, false, &si.config, si.vparams.clone())
         }
     });
     let c = r.map_err(|p| format!("panic: {p}"))?;
@@ -689,37 +691,49 @@ struct StarkCase {
     config: StarkConfig,
     log_rows: usize,
     with_pi: bool,
+    /// degree bits of the verifier circuit the proof is padded for (variable-degree mode)
+    verifier_degree_bits: Option<usize>,
 }
 fn stark_cases(thorough: bool) -> Vec<StarkCase> {
     let fast = StarkConfig::standard_fast_config();
     let mut v = vec![
-        StarkCase { name: "fib-pi/fast", config: fast.clone(), log_rows: 8, with_pi: true },
-        StarkCase { name: "fib-nopi/fast", config: fast.clone(), log_rows: 7, with_pi: false },
+        StarkCase { name: "fib-pi/fast", config: fast.clone(), log_rows: 8, with_pi: true, verifier_degree_bits: None },
+        StarkCase { name: "fib-nopi/fast", config: fast.clone(), log_rows: 7, with_pi: false, verifier_degree_bits: None },
         StarkCase {
             name: "fib-pi/nc1-fixed",
             config: StarkConfig::new(40, 1, FriConfig { rate_bits: 2, cap_height: 1, proof_of_work_bits: 5, reduction_strategy: FriReductionStrategy::Fixed(vec![1, 2]), num_query_rounds: 18 }),
             log_rows: 7,
             with_pi: true,
+            verifier_degree_bits: None,
         },
         StarkCase {
             name: "fib-nopi/nolayers",
             config: StarkConfig::new(30, 3, FriConfig { rate_bits: 3, cap_height: 0, proof_of_work_bits: 3, reduction_strategy: FriReductionStrategy::Fixed(vec![]), num_query_rounds: 10 }),
             log_rows: 5,
             with_pi: false,
+            verifier_degree_bits: None,
         },
     ];
+    // variable-degree mode (ConstantArityBits only; final polynomial of the verifier circuit = 2^(1 + final bits)):
+    // degree 6 under a degree-8 verifier lacks one commit layer (zero-cap padding), degree 7 has a shorter final
+    // polynomial (zero-coefficient padding)
+    let vd = StarkConfig::new(80, 2, FriConfig { rate_bits: 1, cap_height: 4, proof_of_work_bits: 16, reduction_strategy: FriReductionStrategy::ConstantArityBits(2, 3), num_query_rounds: 84 });
+    v.push(StarkCase { name: "fib-pi/vardeg-6of8", config: vd.clone(), log_rows: 6, with_pi: true, verifier_degree_bits: Some(8) });
+    v.push(StarkCase { name: "fib-nopi/vardeg-7of8", config: vd, log_rows: 7, with_pi: false, verifier_degree_bits: Some(8) });
     if thorough {
         v.push(StarkCase {
             name: "fib-pi/minsize",
             config: StarkConfig::new(60, 2, FriConfig { rate_bits: 2, cap_height: 3, proof_of_work_bits: 10, reduction_strategy: FriReductionStrategy::MinSize(Some(3)), num_query_rounds: 25 }),
             log_rows: 10,
             with_pi: true,
+            verifier_degree_bits: None,
         });
         v.push(StarkCase {
             name: "fib-nopi/cab",
             config: StarkConfig::new(50, 1, FriConfig { rate_bits: 1, cap_height: 2, proof_of_work_bits: 8, reduction_strategy: FriReductionStrategy::ConstantArityBits(2, 2), num_query_rounds: 42 }),
             log_rows: 9,
             with_pi: false,
+            verifier_degree_bits: None,
         });
     }
     v
@@ -730,19 +744,20 @@ fn stark_one(case: &StarkCase, only_cfg: bool, salt: u64) -> anyhow::Result<Valu
     let (x0, x1) = if case.with_pi { (fc(3 + salt), fc(5)) } else { (F::ZERO, F::ONE) };
     let (trace, last) = fib_trace(rows, x0, x1);
     let mut timing = TimingTree::default();
+    let vparams = case.verifier_degree_bits.map(|d| case.config.fri_params(d));
     let proof = if case.with_pi {
         let s = FibPi::<F, D> { _p: PhantomData };
         let pis = [x0, x1, last];
-        let p = starky::prover::prove::<F, PC, _, D>(s, &case.config, trace, &pis, None, &mut timing)?;
-        starky::verifier::verify_stark_proof(s, p.clone(), &case.config, None)?;
+        let p = starky::prover::prove::<F, PC, _, D>(s, &case.config, trace, &pis, vparams.clone(), &mut timing)?;
+        starky::verifier::verify_stark_proof(s, p.clone(), &case.config, vparams.clone())?;
         p
     } else {
         let s = FibNoPi::<F, D> { _p: PhantomData };
-        let p = starky::prover::prove::<F, PC, _, D>(s, &case.config, trace, &[], None, &mut timing)?;
-        starky::verifier::verify_stark_proof(s, p.clone(), &case.config, None)?;
+        let p = starky::prover::prove::<F, PC, _, D>(s, &case.config, trace, &[], vparams.clone(), &mut timing)?;
+        starky::verifier::verify_stark_proof(s, p.clone(), &case.config, vparams.clone())?;
         p
     };
-    let si = Si { config: case.config.clone(), proof, with_pi: case.with_pi };
+    let si = Si { config: case.config.clone(), proof, with_pi: case.with_pi, vparams: vparams.clone() };
     let p = &si.proof.proof;
     let fc_ = &si.config.fri_config;
     let degree_bits = p.recover_degree_bits(&si.config);
@@ -757,7 +772,10 @@ fn stark_one(case: &StarkCase, only_cfg: bool, salt: u64) -> anyhow::Result<Valu
         "q": fc_.num_query_rounds, "nfinal": p.opening_proof.final_poly.coeffs.len(),
         "ncols": p.openings.local_values.len(), "naux": 0,
         "nquot": p.openings.quotient_polys.as_ref().map_or(0, |q| q.len()),
-        "lookups": false, "nsimz": 1, "padcaps": 0, "padfinal": 0,
+        "lookups": false, "nsimz": 1,
+        "padcaps": vparams.as_ref().map_or(0, |v| v.reduction_arity_bits.len() - p.opening_proof.commit_phase_merkle_caps.len()),
+        "padfinal": vparams.as_ref().map_or(0, |v| plonky2::fri::prover::final_poly_coeff_len(v.degree_bits, &v.reduction_arity_bits)
+                                                   - p.opening_proof.final_poly.coeffs.len()),
     });
     let mut out = json!({"kind": "c04-case", "system": "stark", "config": case.name, "cfg": cfg,
                          "lde_bits": degree_bits + fc_.rate_bits, "degree_bits": degree_bits});
